@@ -50,6 +50,39 @@ def import_goodwe(fresh: bool = False):
     return goodwe
 
 
+# ---------------------------------------------------------------------------------------------
+# optional measurement: which lines of goodwe do the generated cases execute (tools/linecov.sh; never on in registered commands)
+# ---------------------------------------------------------------------------------------------
+_LINECOV = os.environ.get("VERIF_LINECOV")
+_cov = set()
+
+
+def _linecov_start():
+    mon = sys.monitoring
+    mon.use_tool_id(mon.COVERAGE_ID, "verif-linecov")
+    prefix = os.path.join(os.path.abspath(REPO), "goodwe") + os.sep
+
+    def line(code, lineno):
+        fn = code.co_filename
+        if fn.startswith(prefix):
+            _cov.add((fn[len(prefix):], lineno))
+        return mon.DISABLE
+
+    mon.register_callback(mon.COVERAGE_ID, mon.events.LINE, line)
+    mon.set_events(mon.COVERAGE_ID, mon.events.LINE)
+
+
+def _linecov_dump():
+    if _LINECOV:
+        os.makedirs(_LINECOV, exist_ok=True)
+        with open(os.path.join(_LINECOV, "%d.json" % os.getpid()), "w") as f:
+            json.dump(sorted(_cov), f)
+
+
+if _LINECOV:
+    _linecov_start()
+
+
 class HarnessError(Exception):
     """Problem in the verification machinery itself (exit code 2, never a VIOLATION)."""
 
@@ -256,6 +289,7 @@ def _call(fn, job):
         raise
     except BaseException as ex:  # a crash of the harness code itself inside a worker
         raise HarnessError("worker crashed on job %r: %s\n%s" % (job, ex, traceback.format_exc()))
+    _linecov_dump()
     return res.export() if isinstance(res, Acc) else res
 
 
@@ -329,6 +363,7 @@ def slug(key: str) -> str:
 
 def finish(ctx: Ctx, *, level: str, rule: str, assumptions, exhaustive: bool | None = None) -> int:
     acc = ctx.acc
+    _linecov_dump()
     wall = time.time() - ctx.t0
     out_lines = []
     replay_dir = os.path.join(os.environ.get("VERIF_REPLAY_DIR", os.path.join(VERIF, "replays", "_new")), ctx.prop)
